@@ -108,7 +108,47 @@ const CODE_ATOMS: [&str; 107] = [
     "fn qa(a: [A as]::X) {}", "fn qb(a: [as T]::X) {}", "fn qc(a: [A as T]::) {}", "fn qd(a: [A as T]::X) {}", "fn qe(): (Int64, ) {}", "fn qf(a: (Int64): ) {}", "fn qg(a: ref) {}", "fn qh(a: A[) {}",
     "[", "]", "as", "::",
 ];
+const SNIPPETS: [&str; 40] = [
+    "fn f(a: Int64, b: Int64): Int64 { a + b * 2 }", "fn g[T: A + B](x: T): T where T: C { x }", "class C(pub a: Int64, b: String)", "class D[T] { x: T, y: Int32 }",
+    "struct S(Int64, Bool)", "struct T { a: UInt8, b: Char }", "enum E { A, B(Int64), C { v: Int64, w: Bool } }", "trait R { fn get(): Int64; type X; const K: Int64; }",
+    "impl R for C { fn get(): Int64 { 1 } type X = Int64; }", "impl[T] D[T] { static fn make(): D[T] { D[T](x = 1) } }", "mod m { pub fn inner(): Int64 { 1 } mod n { fn deep() {} } }",
+    "const K: Int64 = 1234567890123;", "let mut G: Int64 = 7;", "type Alias[T] = Vec[T];", "use std::collections::{HashMap, Vec as V};", "use package::a::b;", "extern \"C\" fn ext(a: Int32): Int32;",
+    "@Test @Optimize fn annotated() {}", "fn m(e: Option[Int64]): Int64 { match e { Some(x) if x > 0 => x, Some(_) | None => 0 } }",
+    "fn l(): Int64 { let f = |x: Int64, y|: Int64 { x + y }; f(1, 2) }", "fn w(n: Int64) { let mut i = 0; while i < n { i += 1; if i == 3 { continue; } else if i > 9 { break; } } }",
+    "fn fo(v: Vec[Int64]) { for (i, x) in v.enumerate() { println(\"${i}: ${x + 1} }\"); } }", "fn t(): (Int64, Bool) { let (a, b) = (1, true); (a, b) }",
+    "fn p(s: S) { let S(a, _) = s; let T { a: q, .. } = t; }", "fn c(x: Int64): Bool { x is Some(y) && y as Int32 == 1i32 }", "fn q(a: [T as Tr]::X, b: ref T, c: (Int64) -> Bool) {}",
+    "fn idx(a: Array[Int64]): Int64 { a(0) + a[1] + a.b.c(2).d[T]::e() }", "fn ops(a: Int64): Int64 { -a + !a * (a << 2 >> 1 >>> 3) % 5 / 6 & 7 | 8 ^ 9 }",
+    "fn cmp(a: Int64): Bool { a == 1 || a != 2 && a < 3 || a <= 4 || a > 5 || a >= 6 || a === a || a !== a }", "fn asg() { a = 1; a.b = 2; a(0) = 3; a += 1; a -= 1; a *= 2; a /= 2; a %= 2; a |= 1; a &= 1; a ^= 1; a <<= 1; a >>= 1; a >>>= 1; }",
+    "fn lit() { 0x1F; 0b101; 1_000; 1i32; 2.5e-3; 'c'; '\\n'; \"s\"; \"a${x}b${y}c\"; true; false; self; Self::X; }", "fn blk(): Int64 { { let x = { 1 }; x } }", "fn ret(): Int64 { return 1; }",
+    "fn ife(): Int64 { if a { 1 } else if b { 2 } else { 3 } }", "fn path() { a::b::c(); Vec[Int64]::new(); [T as I]::f(); }", "fn tmpl(): String { \"${ \"${1}\" }${ { 2 } }\" }",
+    "// line comment\nfn after_comment() {} /* block */", "fn generic_call() { f[Int64, Vec[Bool]](1); x.m[T](); }", "pub static mutating fn mods() {}", "fn dots() { a..b; a..=b; f(xs...); }",
+];
+/// well-formed snippets damaged token-wise (token boundaries by the real lexer)
+fn gen_code_mutant(rng: &mut Rng) -> String {
+    let k = 1 + rng.below(4);
+    let mut text = String::new();
+    for _ in 0..k { text.push_str(SNIPPETS[rng.below(SNIPPETS.len())]); text.push_str(if rng.below(2) == 0 { "\n" } else { " " }); }
+    let lexed = dora_parser::lex(&text);
+    let mut toks: Vec<String> = Vec::new();
+    for (i, &s) in lexed.starts.iter().enumerate() {
+        let e = if i + 1 < lexed.starts.len() { lexed.starts[i + 1] as usize } else { text.len() };
+        toks.push(text[s as usize..e].to_string());
+    }
+    for _ in 0..rng.below(4) {
+        if toks.is_empty() { break; }
+        let i = rng.below(toks.len());
+        match rng.below(5) {
+            0 => { toks.remove(i); }
+            1 => { let t = toks[i].clone(); toks.insert(i, t); }
+            2 => { let j = rng.below(toks.len()); toks.swap(i, j); }
+            3 => { toks[i] = CODE_ATOMS[rng.below(CODE_ATOMS.len())].to_string(); }
+            _ => { toks.truncate(i); }
+        }
+    }
+    toks.concat()
+}
 fn gen_code(rng: &mut Rng, n: usize) -> String {
+    if rng.below(2) == 0 { return gen_code_mutant(rng); }
     let mut s = String::new();
     for _ in 0..n {
         s.push_str(CODE_ATOMS[rng.below(CODE_ATOMS.len())]);
